@@ -169,11 +169,15 @@ class compile_order_by:
                      and all(new_targets[j].name is None for j in range(len(c_targets), len(new_targets)))
                      and all(allocated(new_targets[j]) for j in range(len(new_targets)))
                      and all(order_spec[j][1] == order_by[j].ordering for j in range(_i))
+                     and all(isinstance(order_spec[j][0], int) for j in range(_i))
+                     and all(0 <= order_spec[j][0] < len(new_targets) for j in range(_i))
                      and inputs_unchanged('c_expr', 'name', 'is_aggregate'))}
     ensures = [
         ('one-sort-key-per-clause-with-its-direction', lambda order_by, result: len(result[1]) == len(order_by)
             and all(result[1][j][1] == order_by[j].ordering for j in range(len(order_by)))),
         ('selected-targets-untouched', lambda: inputs_unchanged('c_expr', 'name', 'is_aggregate')),
+        ('every-sort-index-addresses-a-target-of-the-extended-list', lambda c_targets, result:
+            all(0 <= result[1][j][0] < len(c_targets) + len(result[0]) for j in range(len(result[1])))),
     ]
 
 
